@@ -1,7 +1,7 @@
 #!/bin/bash
 # ben_corpora.sh <props>: run the named properties over all three behaviour-preserving corpora; prints alarms only
 props=$1
-for dir in benign benign-heldout benign-heldout2 benign-heldout3 benign-heldout4 benign-heldout5 benign-heldout6 benign-heldout7; do
+for dir in benign benign-heldout benign-heldout2 benign-heldout3 benign-heldout4 benign-heldout5 benign-heldout6 benign-heldout7 benign-heldout8; do
   for p in /verif/mutants/$dir/*.patch; do echo "$p $dir/$(basename $p .patch) $props"; done
 done | xargs -P 10 -L1 /verif/tools/benign_fast.sh 2>&1 | grep -v ": silent" 
 echo "(done)"
